@@ -30,7 +30,13 @@ MANIFEST = dict(
           "reference_spelling_irrelevant, nesting_preserved, attributes_preserved, special_strings_preserved; stream 'writer' ties both ends: "
           "recorded tokenizer callbacks of the written text = emit for the choices the writer took, real parse = normalise, and the "
           "excluded points (void element with a child, numeric reference to 128-159, over-long decimal digit string, unknown name) are run "
-          "on the real code, where the conclusion must fail."),
+          "on the real code, where the conclusion must fail. From the TEXT: parse_of_written_document - for every Writable document "
+          "(Model/WriterText.lean: writeText gives the markup; names [a-z][-.:_a-z0-9]*, no script/style, literal characters not & or <, "
+          "hazard-free comments/CDATA/doctype/declarations/PIs) the Lean tokenizer run on writeText makes exactly emit's callbacks up to data "
+          "chunking (callbacks_of_written_document), every start tag at the line/column of its '<' (derivedPos), hence adapter + machine "
+          "yield normalise; html.unescape and str.lower are the only parameters (ParamsOK). Stream written-text: Lean writeText = the Python "
+          "writer's plain-mode text, Writable holds, derivedPos = the writer's offsets, recorder = Lean tokenizer = emit on those texts, "
+          "ParamsOK sampled against the real functions."),
     design="7/C04",
     note=("CPython's tokenizer is outside the repository: it is modelled in Lean and tied to the real one by exact equality of the callback "
           "streams on every text of the run (html.unescape, str.lower and the HTML5 entity table are parameters answered by the real "
@@ -473,9 +479,17 @@ def esc_text(r, s, attr_quote=None, log=None):
     return "".join(out)
 
 
-def write(r, nodes, offsets, pos, in_raw=False, log=None):
+def esc_attr_plain(v):
+    """The Lean writer's attribute value escaping (Model/WriterText.lean `escAttr`): `&` and `"` only."""
+    return v.replace("&", "&amp;").replace('"', "&quot;")
+
+
+def write(r, nodes, offsets, pos, in_raw=False, log=None, plain=False):
     """Returns markup; records (name, offset) of every start tag in `offsets` in document order.
     `log` (a ChoiceLog) receives the choice taken per node; without it the output is exactly what it always was.
+    `plain=True`: the freedoms `Model/WriterText.lean: writeText` does not take are switched off (one space before an attribute,
+    `k="v"` with `&`/`"` as `&amp;`/`&quot;`, names as given, `>` / `/>` directly after the last attribute); without it the
+    output is exactly what it always was.
     Node kinds `dt` (doctype) and `ud` (marked-section declaration `<![if x]>`) are only produced by the `writer` stream."""
     parts = []
     for nd in nodes:
@@ -517,21 +531,28 @@ def write(r, nodes, offsets, pos, in_raw=False, log=None):
         else:
             _, name, attrs, kids = nd
             offsets.append(pos[0])
-            wname = name.upper() if r.random() < 0.1 else name
+            wname = name.upper() if (r.random() < 0.1 and not plain) else name
             s = "<" + wname
             for k, v in attrs:
+                if plain:
+                    s += " " + k + ("" if v is None else '="' + esc_attr_plain(v) + '"')
+                    continue
                 s += r.choice([" ", "  ", "\n", " \t"])
                 s += k.upper() if r.random() < 0.1 else k
                 if v is not None:
                     q = r.choice(['"', "'"])
                     s += r.choice(["=", " = ", "= "]) + q + esc_text(r, v, q) + q
             spelling = r.choice(["plain", "slash", "spaceslash", "pair"]) if name in VOID else "open"
+            if plain and spelling == "spaceslash":
+                spelling = "slash"
             if log is not None:
                 log.entries.append({"plain": "p", "slash": "s", "spaceslash": "s", "pair": "r", "open": "o"}[spelling])
             if spelling == "slash":
                 s += "/>"
             elif spelling == "spaceslash":
                 s += " />"
+            elif plain:
+                s += ">"
             else:
                 s += r.choice([">", " >"]) if not attrs or attrs[-1][1] is not None else ">"
             parts.append(s); pos[0] += len(s)
@@ -540,7 +561,7 @@ def write(r, nodes, offsets, pos, in_raw=False, log=None):
                     e = f"</{name}>"
                     parts.append(e); pos[0] += len(e)
             else:
-                parts.append(write(r, kids, offsets, pos, in_raw=name in ("script", "style"), log=log))
+                parts.append(write(r, kids, offsets, pos, in_raw=name in ("script", "style"), log=log, plain=plain))
                 e = f"</{wname}>"
                 parts.append(e); pos[0] += len(e)
     return "".join(parts)
@@ -926,6 +947,9 @@ def run(ctx: Ctx):
     # Props/TK.lean) computes from the text - on every text of every stream above, rejected ones included
     from . import tk
     tk.stream(ctx, list(tk_texts), name="tokenizer-model", drv=drv)
+    # parse_of_written_document: Lean writeText = the Python writer's plain text, Writable holds, derivedPos = the writer's offsets,
+    # recorder(text) = Lean tokenizer(text) = emit (up to data chunking), ParamsOK for the real str.lower / html.unescape
+    tk.written_stream(ctx, drv)
     # (5) the whole-document theorem: recorder = emit, real parse = normalise, for the writer's actual choices
     writer_stream(ctx, drv)
     B = 20000
